@@ -2,6 +2,12 @@
 from core import FuncSpec, CopySpec, EnumSpec, DeclSpec, Harness, INF
 import units as _u
 _int = _u.load_unit('integers')
+import core as _core, os as _os, re as _re
+# the signed overload of dec_to_integer enters (through its contract) only when the source declares a signed index variable; goto-instrument refuses to replace a function that is never called
+try:
+    _SIGNED_INDEX = bool(_re.search(r'(?:ptrdiff_t|int64_t|intptr_t|long) index\{', open(_os.path.join(_core.REPO, 'include/jsoncons_ext/jsonpointer/jsonpointer.hpp')).read()))
+except OSError:
+    _SIGNED_INDEX = False
 
 JP = 'include/jsoncons_ext/jsonpointer/jsonpointer.hpp'
 RES = '__CPROVER_return_value'
@@ -90,8 +96,10 @@ RESOLVE_RULES = [
     (r'current->is_array\(\)', 'vx_is_array', 1, N), (r'current->is_object\(\)', 'vx_is_object', 1, N),
     (r'buffer\.size\(\)', 'vx_len', 0, N), (r'buffer\.length\(\)', 'vx_len', 0, N), (r'buffer\[(\w+)\]', r'vx_s[\1]', 0, N), (r'buffer\.data\(\)', 'vx_s', 0, N),
     (r'buffer\.empty\(\)', '(vx_len == 0)', 0, N), (r'buffer\.front\(\)', 'vx_s[0]', 0, N),
-    (r'std::size_t index\{0?\};', 'uint64_t index = 0;', 1),
-    (r'auto result = jsoncons::dec_to_integer\(', 'struct to_number_result result = dec_to_integer_u64(', 1),
+    (r'(?:std::size_t|size_t|std::uint64_t|uint64_t) index\{0?\};', 'uint64_t index = 0;', 0, 1),
+    # a signed index variable selects the signed overload of dec_to_integer (which accepts a leading '-'): VX_DEC_TO_INTEGER dispatches on the pointer type like C++ overload resolution
+    (r'(?:std::ptrdiff_t|ptrdiff_t|std::int64_t|int64_t|std::intptr_t|long long|long) index\{0?\};', 'int64_t index = 0;', 0, 1),
+    (r'auto result = jsoncons::dec_to_integer\(', 'struct to_number_result result = VX_DEC_TO_INTEGER(', 1),
     (r', index\);', ', &index);', 1),
     (r'!result\b', '(result.ec != VX_ERRC_ok)', 0, N), (r'(?<![.\w!])result(?=\s*(\)|&&|\|\|))', '(result.ec == VX_ERRC_ok)', 0, N),
     (r'current->size\(\)', 'vx_size', 0, N),
@@ -154,11 +162,20 @@ RESOLVE_MUT_CONTRACT = [(c[0], REQ) if c[0] == 'requires' else ((c[0], ASG) if c
      '%s ==> (vx_visits == 0 && (vx_contains ? (vx_key_visits == 1 && *ec_p == 0 && VX_NOMOD()) : (create_if_missing ? (*ec_p == 0 && vx_obj_adds == 1 && VX_MODS() == 1) : (*ec_p == jsonpointer_errc_key_not_found && VX_NOMOD()))))' % OBJ),
     ('ensures', '[C14] resolving through an array never modifies it', 'vx_is_array ==> VX_NOMOD()'),
 ]
+# the signed overload, used only if a change makes an index variable signed: all-digit strings are read like the unsigned overload up to 2^63-1; a string with a
+# non-digit (e.g. a leading '-') may or may not be accepted and nothing is said about the value (the signed overload accepts "-0", "-12")
+_R = '__CPROVER_return_value'
+DEC_I64_HERE = [
+    ('requires', _int.BIND), ('assigns', '*value_p, vx_h, vx_h_i'),
+    ('ensures', 'empty string is invalid_argument', 'vx_len == 0 ==> %s.ec == VX_ERRC_invalid_argument' % _R),
+    ('ensures', 'an all-digit string: accepted iff its value is at most 2^63-1, the value is exact', '(vx_k == vx_len && vx_len >= 1) ==> ((vx_len <= 20 ==> vx_h_i == vx_len) && ((%s.ec == VX_ERRC_ok) == (vx_len <= 20 && vx_h <= (spec_u128)INT64_MAX)) && (%s.ec == VX_ERRC_ok ==> *value_p == (int64_t)(uint64_t)vx_h))' % (_R, _R)),
+]
 SLICE = r'if \(current->is_array\(\)\)'
 def final_step(name, anchor, csig, contract):
     return FuncSpec(name, JP, anchor, count=1, csig=csig, contract=contract, rules=RESOLVE_RULES, slice_from=SLICE)
 
 SPECS = [
+    DeclSpec('dec_i64_contract_decl', 'dec_to_integer_i64', 'struct to_number_result dec_to_integer_i64(const char* s, size_t length, int64_t* value_p)', DEC_I64_HERE, 'integers (consequence of DEC_I64, restated over the ghosts of the unsigned reading; for strings that are not all digits nothing is assumed)'),
     DeclSpec('dec_contract_decl', 'dec_to_integer_u64', 'struct to_number_result dec_to_integer_u64(const char* s, size_t length, uint64_t* value_p)', _int.DEC_U64, 'integers'),
     EnumSpec('jsonpointer_errc', 'include/jsoncons_ext/jsonpointer/jsonpointer_error.hpp'),
     EnumSpec('pointer_state', JP),
@@ -197,6 +214,6 @@ HARNESSES = [
     Harness('escape_string', 'h_escape_string', enforce='escape_string', loop_contracts=True, method='LC', props=['C14'], expect_classes={'loop_invariant_step': 1}),
     Harness('to_string_token', 'h_to_string_token', enforce='to_string_token', loop_contracts=True, method='LC', props=['C14'], expect_classes={'loop_invariant_step': 1}),
     Harness('parse', 'h_parse', enforce='parse', loop_contracts=True, method='LC', props=['C14'], expect_classes={'loop_invariant_step': 1}, timeout=900),
-] + [Harness(n, 'h_' + n, enforce=n, replace=['dec_to_integer_u64'], method='WU(26)', unwind=26, props=['C14'],
+] + [Harness(n, 'h_' + n, enforce=n, replace=['dec_to_integer_u64'] + (['dec_to_integer_i64'] if _SIGNED_INDEX else []), method='WU(26)', unwind=26, props=['C14'],
              note=('array/object step of the final reference token; the loop over the earlier tokens (calls of resolve, itself under contract) is dropped' if n.endswith('_final') else ''))
      for n in ('resolve_get', 'resolve_mut', 'add_final', 'add_if_absent_final', 'remove_final', 'replace_final')]
